@@ -78,20 +78,20 @@ class Ctx:
         self.model = None
         self._t0 = None
         self._keep = []
+        self._mv_model = None
+        self._mv_cache = None
 
     # ------------------------------------------------------------------ symbols
     def var(self, name):
-        c = [0] * self.n
-        c[self.idx[name]] = 1
-        return Lin(self, tuple(c), 0)
+        return Lin(self, {self.idx[name]: 1}, 0)
 
     def const(self, k):
-        return Lin(self, (0,) * self.n, k)
+        return Lin(self, {}, k)
 
     def z(self, value):
         """z3 expression of a Lin / int / Fraction / float."""
         if isinstance(value, Lin):
-            return self._zexpr(value.c, value.k)
+            return self._zexpr(value.d, value.k)
         if isinstance(value, bool):
             value = int(value)
         if isinstance(value, float):
@@ -101,25 +101,24 @@ class Ctx:
             raise OutsideEncoding(f"non-integer constant {value} in Int context")
         return r
 
-    def _zexpr(self, c, k):
-        if not self.real:
-            # scale away fractions is the caller's job (see _norm); here all must be ints
-            terms = []
-            for ci, v in zip(c, self.zv):
-                if ci:
-                    zc = _zc(ci, False)
-                    if zc is None:
-                        raise OutsideEncoding("fractional coefficient in Int context")
-                    terms.append(v if ci == 1 else zc * v)
-            zk = _zc(k, False)
+    def _zexpr(self, d, k):
+        """z3 term of the sparse affine form (d: dict index -> coefficient)."""
+        real = self.real
+        terms = []
+        for i in sorted(d):
+            ci = d[i]
+            if ci == 1:
+                terms.append(self.zv[i])
+            else:
+                zc = _zc(ci, real)
+                if zc is None:
+                    raise OutsideEncoding("fractional coefficient in Int context")
+                terms.append(zc * self.zv[i])
+        if k or not terms:
+            zk = _zc(k, real)
             if zk is None:
                 raise OutsideEncoding("fractional constant in Int context")
-            if k or not terms:
-                terms.append(zk)
-        else:
-            terms = [(v if ci == 1 else _zc(ci, True) * v) for ci, v in zip(c, self.zv) if ci]
-            if k or not terms:
-                terms.append(_zc(k, True))
+            terms.append(zk)
         return terms[0] if len(terms) == 1 else z3.Sum(terms)
 
     # ------------------------------------------------------------------ solver
@@ -136,44 +135,46 @@ class Ctx:
         return s == "sat"
 
     @staticmethod
-    def _norm(c, k):
-        """Scale (c,k) by a positive rational so that all entries are coprime integers."""
+    def _norm(d, k):
+        """Scale (d,k) by a positive rational so that all entries are coprime integers."""
         den = 1
-        for x in c:
+        for x in d.values():
             if isinstance(x, Fraction):
                 den = den * x.denominator // gcd(den, x.denominator)
         if isinstance(k, Fraction):
             den = den * k.denominator // gcd(den, k.denominator)
         if den != 1:
-            c = tuple(int(x * den) for x in c)
+            d = {i: int(x * den) for i, x in d.items()}
             k = int(k * den)
         else:
-            c = tuple(int(x) for x in c)
+            d = {i: int(x) for i, x in d.items()}
             k = int(k)
         g = 0
-        for x in c:
+        for x in d.values():
             g = gcd(g, x)
         g = gcd(g, k)
         if g > 1:
-            c = tuple(x // g for x in c)
+            d = {i: x // g for i, x in d.items()}
             k = k // g
-        return c, k
+        return d, k
 
-    def decide(self, c, k, kind):
-        """Truth value, on the current path, of  (k + c.x) <kind> 0  with kind in le/lt/eq."""
-        self.ndec += 1
-        if not any(c):
-            self.ntriv += 1
+    def _sparse(self, c):
+        if isinstance(c, dict):
+            return c
+        return {i: x for i, x in enumerate(c) if x}
+
+    def trivial(self, c, k, kind):
+        """Truth value of (k + c.x) <kind> 0 if it follows from constants / declared signs alone, else None."""
+        c = self._sparse(c)
+        if not c:
             return (k <= 0) if kind == "le" else (k < 0) if kind == "lt" else (k == 0)
-        # sign rule
         lo = hi = True       # all signed coefficients >= 0 / <= 0
         lo_strict = hi_strict = False
-        for ci, s in zip(c, self.signs):
-            if not ci:
-                continue
+        signs = self.signs
+        for i, ci in c.items():
+            s = signs[i]
             if s is None:
-                lo = hi = False
-                break
+                return None
             if ci > 0:
                 hi = False
                 if s == "pos":
@@ -184,23 +185,29 @@ class Ctx:
                     hi_strict = True
         if lo:  # d >= k (strictly if lo_strict)
             if k > 0 or (k == 0 and lo_strict):
-                self.ntriv += 1
                 return False
             if kind == "lt" and k >= 0:
-                self.ntriv += 1
                 return False
         if hi:  # d <= k (strictly if hi_strict)
             if k < 0 or (k == 0 and hi_strict):
-                self.ntriv += 1
                 return kind != "eq"
             if kind == "le" and k <= 0:
-                self.ntriv += 1
                 return True
+        return None
+
+    def decide(self, c, k, kind):
+        """Truth value, on the current path, of  (k + c.x) <kind> 0  with kind in le/lt/eq."""
+        self.ndec += 1
+        c = self._sparse(c)
+        r = self.trivial(c, k, kind)
+        if r is not None:
+            self.ntriv += 1
+            return r
         c, k = self._norm(c, k)
         if not self.real and kind == "lt":
             # integers: d < 0  <=>  d + 1 <= 0 ; keeps the cache small
             kind, k = "le", k + 1
-        key = (c, k, kind)
+        key = (tuple(sorted(c.items())), k, kind)
         r = self.known.get(key)
         if r is not None:
             self.ncache += 1
@@ -339,8 +346,12 @@ class Ctx:
 
     def current_value(self, lin):
         """Value of a Lin in the model of the current PC (witness printing only)."""
-        mv = self.model_values()
-        return lin.k + sum(ci * mv[n] for ci, n in zip(lin.c, self.names) if ci)
+        if self._mv_model is not self.model:
+            self._mv_cache = self.model_values()
+            self._mv_model = self.model
+        mv = self._mv_cache
+        names = self.names
+        return lin.k + sum(ci * mv[names[i]] for i, ci in lin.d.items())
 
     def pc_text(self, limit=12):
         out = []
@@ -366,59 +377,93 @@ class Ctx:
 _NUM = (int, Fraction)
 
 
+def _fr(x):
+    """Keep integers as ints (much faster than Fractions)."""
+    if isinstance(x, Fraction) and x.denominator == 1:
+        return x.numerator
+    return x
+
+
 class Lin:
-    """Affine form over the variables of a Ctx; behaves like a number for the code under test."""
+    """Affine form over the variables of a Ctx; behaves like a number for the code under test.
+    Sparse: d maps variable index -> non-zero coefficient (int or Fraction), k is the constant."""
 
-    __slots__ = ("ctx", "c", "k")
+    __slots__ = ("ctx", "d", "k")
 
-    def __init__(self, ctx, c, k):
+    def __init__(self, ctx, d, k):
         self.ctx = ctx
-        self.c = c
+        self.d = d
         self.k = k
 
+    @property
+    def c(self):
+        """Dense coefficient tuple (compatibility / printing)."""
+        out = [0] * self.ctx.n
+        for i, x in self.d.items():
+            out[i] = x
+        return tuple(out)
+
     # -- coercion
-    def _co(self, o):
-        if isinstance(o, Lin):
-            return o
+    @staticmethod
+    def _num(o):
+        """-> python number for int/bool/Fraction/finite float, else None"""
         if isinstance(o, bool):
-            return Lin(self.ctx, (0,) * len(self.c), int(o))
+            return int(o)
         if isinstance(o, _NUM):
-            return Lin(self.ctx, (0,) * len(self.c), o)
+            return o
         if isinstance(o, float):
             if o != o or o in (float("inf"), float("-inf")):
                 return None
-            return Lin(self.ctx, (0,) * len(self.c), Fraction(o))
+            return _fr(Fraction(o))
         return None
 
     def is_const(self):
-        return not any(self.c)
+        return not self.d
 
     # -- arithmetic
     def __add__(self, o):
-        o = self._co(o)
-        if o is None:
+        if isinstance(o, Lin):
+            d = dict(self.d)
+            for i, x in o.d.items():
+                v = d.get(i, 0) + x
+                if v:
+                    d[i] = v
+                else:
+                    d.pop(i, None)
+            return Lin(self.ctx, d, self.k + o.k)
+        n = self._num(o)
+        if n is None:
             return NotImplemented
-        return Lin(self.ctx, tuple(a + b for a, b in zip(self.c, o.c)), self.k + o.k)
+        return Lin(self.ctx, self.d, self.k + n)
 
     __radd__ = __add__
 
     def __neg__(self):
-        return Lin(self.ctx, tuple(-a for a in self.c), -self.k)
+        return Lin(self.ctx, {i: -x for i, x in self.d.items()}, -self.k)
 
     def __pos__(self):
         return self
 
     def __sub__(self, o):
-        o = self._co(o)
-        if o is None:
+        if isinstance(o, Lin):
+            d = dict(self.d)
+            for i, x in o.d.items():
+                v = d.get(i, 0) - x
+                if v:
+                    d[i] = v
+                else:
+                    d.pop(i, None)
+            return Lin(self.ctx, d, self.k - o.k)
+        n = self._num(o)
+        if n is None:
             return NotImplemented
-        return Lin(self.ctx, tuple(a - b for a, b in zip(self.c, o.c)), self.k - o.k)
+        return Lin(self.ctx, self.d, self.k - n)
 
     def __rsub__(self, o):
-        o = self._co(o)
-        if o is None:
+        n = self._num(o)
+        if n is None:
             return NotImplemented
-        return o - self
+        return Lin(self.ctx, {i: -x for i, x in self.d.items()}, n - self.k)
 
     def __mul__(self, o):
         if isinstance(o, Lin):
@@ -428,15 +473,12 @@ class Lin:
                 return o * self.k
             else:
                 raise OutsideEncoding("product of two symbolic values")
-        if isinstance(o, bool):
-            o = int(o)
-        if isinstance(o, float):
-            if o != o or o in (float("inf"), float("-inf")):
-                return NotImplemented
-            o = Fraction(o)
-        if isinstance(o, _NUM):
-            return Lin(self.ctx, tuple(a * o for a in self.c), self.k * o)
-        return NotImplemented
+        n = self._num(o)
+        if n is None:
+            return NotImplemented
+        if n == 0:
+            return Lin(self.ctx, {}, 0)
+        return Lin(self.ctx, {i: _fr(x * n) for i, x in self.d.items()}, _fr(self.k * n))
 
     __rmul__ = __mul__
 
@@ -445,17 +487,12 @@ class Lin:
             if not o.is_const():
                 raise OutsideEncoding("division by a symbolic value")
             o = o.k
-        if isinstance(o, float):
-            o = Fraction(o)
-        if isinstance(o, _NUM) and not isinstance(o, bool):
-            if o == 0:
-                raise ZeroDivisionError("division by zero")
-            if not self.ctx.real:
-                # exact only if it stays integral on every valuation; keep it as a Fraction and
-                # let _zexpr reject it if it ever reaches the solver un-normalised
-                pass
-            return Lin(self.ctx, tuple(Fraction(a) / o for a in self.c), Fraction(self.k) / o)
-        return NotImplemented
+        n = self._num(o)
+        if n is None:
+            return NotImplemented
+        if n == 0:
+            raise ZeroDivisionError("division by zero")
+        return Lin(self.ctx, {i: _fr(Fraction(x) / n) for i, x in self.d.items()}, _fr(Fraction(self.k) / n))
 
     def __rtruediv__(self, o):
         if self.is_const():
@@ -472,11 +509,14 @@ class Lin:
 
     # -- comparisons (decide / fork)
     def _cmp(self, o, kind, swap=False):
-        o = self._co(o)
-        if o is None:
-            return NotImplemented
-        d = (o - self) if swap else (self - o)
-        return self.ctx.decide(d.c, d.k, kind)
+        if not isinstance(o, Lin):
+            n = self._num(o)
+            if n is None:
+                return NotImplemented
+            d = (n - self) if swap else (self - n)
+        else:
+            d = (o - self) if swap else (self - o)
+        return self.ctx.decide(d.d, d.k, kind)
 
     def __le__(self, o):
         return self._cmp(o, "le")
@@ -491,13 +531,16 @@ class Lin:
         return self._cmp(o, "lt", True)
 
     def __eq__(self, o):
-        o2 = self._co(o)
-        if o2 is None:
-            if isinstance(o, float):
-                return False
-            return NotImplemented
-        d = self - o2
-        return self.ctx.decide(d.c, d.k, "eq")
+        if not isinstance(o, Lin):
+            n = self._num(o)
+            if n is None:
+                if isinstance(o, float):
+                    return False
+                return NotImplemented
+            d = self - n
+        else:
+            d = self - o
+        return self.ctx.decide(d.d, d.k, "eq")
 
     def __ne__(self, o):
         r = self.__eq__(o)
@@ -506,7 +549,7 @@ class Lin:
         return not r
 
     def __bool__(self):
-        return not self.ctx.decide(self.c, self.k, "eq")
+        return not self.ctx.decide(self.d, self.k, "eq")
 
     def __hash__(self):
         raise OutsideEncoding("hash of a symbolic value")
@@ -529,9 +572,8 @@ class Lin:
         return format(float(self), spec)
 
     def __repr__(self):
-        s = " + ".join(
-            (n if c == 1 else f"{c}*{n}") for c, n in zip(self.c, self.ctx.names) if c
-        )
+        names = self.ctx.names
+        s = " + ".join((names[i] if c == 1 else f"{c}*{names[i]}") for i, c in sorted(self.d.items()))
         if self.k or not s:
             s = f"{s} + {self.k}" if s else str(self.k)
         return f"<{s}>"
